@@ -471,6 +471,15 @@ def run_key_vector(vec, tid: str, prop: str, variant: int = 0) -> dict:
         if q:
             rec.do("arith", [r[0], q[0]], keep=False, op="mul", spelling=("operator", "numpy", "numpoly")[variant % 3],
                    bigexp=e + 1 + variant % 7)
+        writer = ("numpoly", "numpy")[variant % 2]
+        text = dict(fmt="%d", delimiter="default", header="default", comments="default", target=("buffer", "path")[(variant // 2) % 2],
+                    text=True)
+        rec.do("saveload", r, keep=False, writer=writer, bigexp=e, **text)
+        # the exponent in the last of two stored keys, two indeterminates
+        two = rec.do("from_attributes", [], rows=[[0, 0], [1, e]], coefs=[[num(1)], [num(coef)]], shape=[], names=[0, 1],
+                     rc="none", rn="true", via="function", dtype="int64", bigexp=e)
+        if two:
+            rec.do("saveload", two, keep=False, writer=writer, bigexp=e, **text)
     rec.meta["source"] = "MC_Keys"
     return rec.to_json()
 
